@@ -22,7 +22,7 @@ import struct
 
 from mc import core, explore, seams
 from mc.world import World, Monitor
-from mc.pair import app_send, DeliveryMonitor
+from mc.pair import app_send, DeliveryMonitor, add_bystander
 
 core.import_repo()
 from cryptography.hazmat.primitives.ciphers.aead import AESGCM  # noqa
@@ -192,8 +192,12 @@ def scenario(params, ch):
             for mode in ("none", "best"):
                 app_send(w, dm, "c", MARK + b"after-" + mode.encode(), mode)
         else:
-            w = World(order=order, latency=latency, chooser=ch, monitors=[mon, dm], dt=dt)
+            # "two": two sessions of one client process with one server at the same time (the second one keeps exchanging
+            # traffic of every kind); "resession": the same client object connects again within the same second
+            w = World(n_clients=(2 if start == "two" else 1), order=order, latency=latency, chooser=ch, monitors=[mon, dm], dt=dt)
             w.run_until_connected()
+            if start == "two":
+                add_bystander(w, dm)
         w.run(2)
         if start == "near-wrap":
             w.preset_near_wrap(msg_seq=0)
@@ -201,6 +205,19 @@ def scenario(params, ch):
         for step in program:
             do_step(w, dm, step)
         w.fates = []
+        if start == "resession":
+            w.run(4)
+            w.clients[0].client.disconnect()
+            w.run(4)
+            w.clients[0].client.forceDisconnect()
+            w.client_reconnect(0)
+            w.run_until_connected()
+            w.run(2)
+            w.fates = ["drop", "dup", "delay8"]
+            for step in program:
+                if step not in ("skick", "rehello"):
+                    do_step(w, dm, step)
+            w.fates = []
         w.run(20)
         w.clients[0].client.disconnect()
         w.run(6)
@@ -247,6 +264,13 @@ def params_list(tier):
             out.append(("early", p, "cs", 1, 1.0 / 64))
             if tier == "thorough":
                 out.append(("early", p, "sc", 0, 0.02))
+    for start in ("two", "resession"):
+        for p in progs:
+            if len(p) > (1 if tier == "quick" else 2) or any(x in p for x in ("stream", "fastloop", "skick", "rehello", "idle3")):
+                continue
+            out.append((start, p, "cs", 1, 1.0 / 64))
+            if tier == "thorough":
+                out.append((start, p, "sc", 0, 0.02))
     for start in ("fresh", "near-wrap", "ring63"):
         for p in progs:
             if "skick" in p and p[-1] != "skick" or p.count("skick") > 1:
